@@ -185,6 +185,7 @@ func TestVerifC04Profiles(t *testing.T) {
 				w := q.(*profilesRequest)
 				out.Linef("obs req %d cs=%d sz=%d | %s", i, w.cachedSize, sizeOf(w.pd), vDumpProfiles(w.pd))
 			}
+			out.Linef("obs last_is_receiver %d", vB(len(r.res) > 0 && r.res[len(r.res)-1] == exporterhelper.Request(r1)))
 			if len(r.res) > 1 {
 				out.Linef("nt")
 			}
